@@ -239,6 +239,7 @@ var Mutants = map[string][]Mutant{
 		{"PS eofill outside its guard", "renderers/ps/ps.go", `r\.w\.Write\(\[\]byte\(" fill"\)\)\n\t\t\}\n\t\tif style\.HasStroke\(\) && !strokeUnsupported \{\n\t\t\tr\.w\.Write\(\[\]byte\(" grestore"\)\)`, "r.w.Write([]byte(\" eofill\"))\n\t\t}\n\t\tif style.HasStroke() && !strokeUnsupported {\n\t\t\tr.w.Write([]byte(\" grestore\"))", "E6.enum"},
 	},
 	"C13": {
+		{"gradients with fewer than two stops get an empty function dictionary (reverts fix 1e751a6)", "renderers/pdf/writer.go", `(?s)\tif len\(stops\) == 0 \{\n[^\n]*\n\t\treturn patternStopFunction\(canvas\.Stop\{\}, canvas\.Stop\{\}\)\n\t\} else if len\(stops\) == 1 \{\n\t\treturn patternStopFunction\(stops\[0\], stops\[0\]\)\n\t\}\n`, "\tif len(stops) < 2 {\n\t\treturn pdfDict{}\n\t}\n", "E5.function-dict-never-empty"},
 		{"gradient boundary appended before the function under a length guard", "renderers/pdf/writer.go", `(?s)\t\tfs = append\(fs, patternStopFunction\(stops\[i\], stops\[i\+1\]\)\)\n\t\tencode = append\(encode, 0, 1\)\n\t\tif i != 0 \{\n\t\t\tbounds = append\(bounds, stops\[i\]\.Offset\)\n\t\t\}\n`, "\t\tif 0 < len(fs) {\n\t\t\tbounds = append(bounds, stops[i].Offset)\n\t\t}\n\t\tfs = append(fs, patternStopFunction(stops[i], stops[i+1]))\n\t\tencode = append(encode, 0, 1)\n", "E5.stitching-arity"},
 		{"name escaping forgets the number sign", "renderers/pdf/writer.go", ` \|\| c == '#' \|\| strings\.IndexByte`, " || strings.IndexByte", "E5.name-escape"},
 		{"names written raw (reverts fix eb66fee)", "renderers/pdf/writer.go", `w\.write\("/%v", pdfEscapeName\(string\(v\)\)\)`, "w.write(\"/%v\", v)", "E5.name-escape"},
